@@ -37,6 +37,8 @@ pub(crate) struct Params {
     pub mmr_epoch: u64,
     pub filter_batch: u64,
     pub seed: u64,
+    /// peers answer GetBlocksProof / GetTransactionsProof with the V1 layout
+    pub proof_v1: bool,
 }
 
 impl Default for Params {
@@ -53,6 +55,7 @@ impl Default for Params {
             mmr_epoch: 0,
             filter_batch: 5,
             seed: 0xC0FFEE,
+            proof_v1: false,
         }
     }
 }
@@ -139,6 +142,9 @@ pub(crate) fn build_with(env: &Env, w: &Worlds, p: &Params, scn: Scn, old: Optio
         world.add_peer(1, 0, p.h1);
     }
     world.filter_batch = p.filter_batch;
+    if p.proof_v1 {
+        world.peer_mut(1).version = crate::verif::world::ProofVersion::V1;
+    }
     let cfg = crate::verif::client::ClientCfg {
         last_n: p.last_n,
         mmr_activated_epoch: p.mmr_epoch,
